@@ -128,33 +128,45 @@ func NewEnv(opt EnvOpt) (*Env, error) {
 			cfg.Servers = append(cfg.Servers, cl.Nodes[i].Addr)
 		}
 	}
-	p, err := StartProxy(bin, dir, cfg)
-	if err != nil {
-		cl.Close()
-		return nil, err
-	}
-	// the listening port is picked by probing; if another process took it in the
-	// meantime the proxy exits at once: try again with another port
-	for attempt := 0; attempt < 3; attempt++ {
-		time.Sleep(150 * time.Millisecond)
-		if p.Alive() {
-			break
+	// The listening port is picked by probing; if another socket took it in the
+	// meantime the proxy exits with "address already in use" - at once, or (loaded
+	// machine) a little later: a proxy that exits during start is started again with
+	// another port, up to four times. A proxy that stays alive but never serves is not
+	// retried (that is a behaviour to report, see NotReadyError).
+	var p *Proxy
+	for attempt := 0; ; attempt++ {
+		d := dir
+		if attempt > 0 {
+			d = fmt.Sprintf("%s.r%d", dir, attempt)
 		}
-		p, err = StartProxy(bin, fmt.Sprintf("%s.r%d", dir, attempt), cfg)
+		p, err = StartProxy(bin, d, cfg)
 		if err != nil {
 			cl.Close()
 			return nil, err
 		}
+		if opt.NoWait {
+			time.Sleep(300 * time.Millisecond)
+			if p.Alive() || attempt >= 3 {
+				break
+			}
+			continue
+		}
+		err = p.WaitReady(20 * time.Second)
+		if err == nil {
+			break
+		}
+		if _, notReady := err.(*NotReadyError); notReady || attempt >= 3 {
+			e := &Env{Dir: p.Dir, Cl: cl, T: t, P: p, Bin: bin}
+			e.Close()
+			return nil, err
+		}
+		p.Stop()
 	}
 	e := &Env{Dir: p.Dir, Cl: cl, T: t, P: p, Bin: bin}
 	allEnvsMu.Lock()
 	allEnvs = append(allEnvs, e)
 	allEnvsMu.Unlock()
 	if !opt.NoWait {
-		if err := p.WaitReady(20 * time.Second); err != nil {
-			e.Close()
-			return nil, err
-		}
 		w, err := NewWitness(p.Addr)
 		if err != nil {
 			e.Close()
